@@ -29,7 +29,7 @@ func init() {
 		Level: "model_checking",
 		Rule: "(e) every REPL session of <=3 (thorough 4) lines over a 24-line alphabet fed to the real StartREPL; (a) every own property (Go and native, discovered at run time from every object reachable from the root environment) called through Func#call with every argument tuple (self, a1) over a 67-value pool (including values equal to a cached singleton without being it: Int.bear.new(0), true - true, ...) and (self, a1, a2) over a 13-value pool (thorough: 25), plus 7 kwargs objects on a 13-value pool; " +
 			"(f) every sequence of <=4 (thorough 5) operations {next, A, list chain, reduce chain, _iter, copy, new} on one iterator object and a copy of it, for 12 built-in and literal iterators, each operation under try so that the iterator is polled again after it stopped; " +
-			"(b) every string of <=2 tokens over a 75-spelling token alphabet (joined with and without spaces) and of 3 tokens over 26 token classes (thorough: 3 over 75, 4 over 18), parsed and evaluated as a program, with stdin; " +
+			"(b) every string of <=2 tokens over a 75-spelling token alphabet (joined with and without spaces) and of 3 tokens over 27 token classes (thorough: 3 over 75, 4 over 18), plus every compound assignment operator x 5 targets x 11 right-hand sides x 4 contexts, parsed and evaluated as a program, with stdin; " +
 			"(c) x OP y for 23 infix operators over pool^2, prefix operators, x[y], x[y:z], x[y:z:w] over reduced pools through real syntax; " +
 			"(d) 45 producers of unusual values (bodies with return/raise/yield/defer in function, method, iterator, chain, try, eval contexts; every prototype; `_`) x 22 consumer slots; " +
 			"oracle: no panic escapes Parse/Eval/the built-in, no worker death, and the outcome (syntax error, PanErr or a value) survives Inspect, Repr, the prototype walk and S; " +
@@ -320,7 +320,7 @@ var tokens = []string{
 	"if", "else", "return", "raise", "yield", "defer", "#c", `"`, "`", "'", "?", "\r\n", "\x00", "\xff", "\\x", "_", "recur",
 }
 
-var tokenClasses = []string{"1", `"s"`, "x", "'sym", "+", "-", "**", "==", "!", ":=", "=>", ".", "@", "$", "(", ")", "[", "]", "{", "}", "|", ",", ":", "\n", "if", "<>"}
+var tokenClasses = []string{"1", `"s"`, "x", "'sym", "+", "-", "**", "==", "!", ":=", "+=", "=>", ".", "@", "$", "(", ")", "[", "]", "{", "}", "|", ",", ":", "\n", "if", "<>"}
 var tokenClasses4 = []string{"1", "x", "+", "!", ":=", ".", "@", "(", ")", "[", "]", "{", "}", "|", ",", ":", "\n", "if"}
 
 type scase struct {
@@ -363,6 +363,17 @@ func sweepTokens(c *core.Ctx, judge judgeFn) {
 						add([]string{a, b, d, e})
 					}
 				}
+			}
+		}
+	}
+	// compound assignments: every operator x target {defined int, defined str, undefined, private, argument variable} x
+	// right-hand side {values of each type, an undefined name, a raising call}, alone and inside try / a function body
+	for _, op := range []string{"<<", ">>", "/&", "/|", "/^", "+", "-", "*", "**", "/", "//", "%", "&&", "||"} {
+		for _, lhs := range []string{"ci", "cs", "undefinedTarget", "_cp", "cn"} {
+			for _, rhs := range []string{"1", "0", "(-1)", `"x"`, "nil", "[1]", "1.5", "undefinedRhs", "(1 / 0)", "{|| 1}", "64"} {
+				st := lhs + " " + op + "= " + rhs
+				pre := "ci := 5; cs := \"s\"; _cp := 2; cn := nil; "
+				srcs = append(srcs, pre+st, pre+"1.try.{|u| "+st+"}.A", pre+"{|| "+st+"}()", pre+st+" => r2")
 			}
 		}
 	}
